@@ -66,4 +66,9 @@ PROPS = {
         'decided': 'read_new_file: a real (non pseudo) file is taken from the FIRST search directory in which it is readable, the reported name is that path, and an error means no directory has it (file system uninterpreted)',
         'not_covered': ['recurse_dependencies / process_pp_form reaching every include and embed-file form: bounded stand-in only (E3 on a temporary directory tree: include, embed-file bin/hex, shadowed search path; cl21 and cl23)', 'gather_dependencies filter', 'pseudo-file branch of read_new_file'],
     },
+    'C13': {
+        'units': ['symbols'],
+        'decided': 'path_to_function / path_to_function_inner: a returned path addresses, in the given program, a subtree whose tree hash equals the symbol-table key (for every program and hash); rewrite_in_program builds exactly (a (a (q . path/2) env) (c env 1))',
+        'not_covered': ['add_defun records hash(code) -> name and the argument list (HashMap-heavy, not under contract)', 'later passes leave quoted bodies alone', 'every reachable non-inline function has an entry', 'extracted code computes what the source function computes'],
+    },
 }
